@@ -631,19 +631,49 @@ func c09Client(c *Ctx) {
 		return
 	}
 	// the constructor parameter is called in the body (not only inside a stored closure) and its result is the gun's Client
+	// (the body, or a named helper of the package the body calls: factory.newClient())
 	var call *ssa.Call
-	EachInstr(nb, func(in ssa.Instruction) {
-		if cl, ok := in.(*ssa.Call); ok && !cl.Call.IsInvoke() && cl.Call.StaticCallee() == nil {
-			if DerivesOnly(cl.Call.Value, false, func(v ssa.Value) bool { return v == ssa.Value(nb.Params[0]) }) {
-				call = cl
+	var body []*ssa.Function
+	var walk func(g *ssa.Function, d int)
+	walk = func(g *ssa.Function, d int) {
+		for _, h := range body {
+			if h == g {
+				return
 			}
 		}
-	})
+		body = append(body, g)
+		if d == 0 {
+			return
+		}
+		EachInstr(g, func(in ssa.Instruction) {
+			if cl, ok := in.(*ssa.Call); ok {
+				if sc := cl.Call.StaticCallee(); sc != nil && sc.Parent() == nil && PkgOf(sc) == PkgOf(nb) && len(sc.Blocks) > 0 {
+					walk(sc, d-1)
+				}
+			}
+		})
+	}
+	walk(nb, 2)
+	for _, g := range body {
+		EachInstr(g, func(in ssa.Instruction) {
+			if cl, ok := in.(*ssa.Call); ok && !cl.Call.IsInvoke() && cl.Call.StaticCallee() == nil {
+				if DerivesOnly(cl.Call.Value, false, func(v ssa.Value) bool { return v == ssa.Value(nb.Params[0]) }) {
+					call = cl
+				}
+			}
+		})
+	}
 	okStore := false
 	if call != nil {
 		EachInstr(nb, func(in ssa.Instruction) {
-			if v, ok := StoreToField(in, "BaseGun", "Client"); ok && DerivesOnly(v, false, IsResultOf(call, -1)) {
-				okStore = true
+			if v, ok := StoreToField(in, "BaseGun", "Client"); ok {
+				all := true
+				for _, r := range ThroughReturns(v) {
+					if !DerivesOnly(r, false, IsResultOf(call, -1)) {
+						all = false
+					}
+				}
+				okStore = okStore || all
 			}
 		})
 	}
